@@ -6,7 +6,7 @@ git -C /repo worktree add --detach /tmp/seed/$id HEAD >/dev/null 2>&1
 mkdir -p /tmp/seed/$id-out
 python3 - "$id" <<'PY'
 import json,sys
-pid=sys.argv[1]
+pid=sys.argv[1].split('-')[0]
 for l in open('/verif/properties.jsonl'):
     p=json.loads(l)
     if p['id']==pid:
